@@ -59,6 +59,8 @@ package aggsigdb
 //@ props C17
 //@ callreq close: a1 == m.notify
 //@ ensures result == nil ==> ncalls(close) == 1
+// every change of the stored data is followed by a broadcast, also when a later entry of the set is rejected (F-C17b)
+//@ ensures m.data != old(m.data) ==> ncalls(close) == 1
 //@ ensures forallk(k, old(m.data), has(m.data, k) && m.data[k] == old(m.data)[k])
 //@ canary result != nil
 //@ loop 1 invariant ncalls(close) == 0
